@@ -113,6 +113,14 @@ UNITS['frame'] = unit_frame
 UNITS['sigtab'] = unit_sigtab
 UNITS['l0bits'] = unit_l0bits
 
+
+def unit_dfvc(tier, seed):
+    import dfvc
+    return dfvc.run(tier, seed)
+
+
+UNITS['dfvc'] = unit_dfvc
+
 # property -> units that carry obligations tagged with it
 PROPERTY_UNITS = {}
 PROPERTY_UNITS['C03'] = ['frame']
@@ -121,6 +129,8 @@ PROPERTY_UNITS['C06'] = ['frame']
 PROPERTY_UNITS['C13'] = ['frame']
 PROPERTY_UNITS['C18'] = ['sigtab']
 PROPERTY_UNITS['C07'] = ['l0bits']
+PROPERTY_UNITS['C08'] = ['dfvc', 'l1int', 'l0bits']
+PROPERTY_UNITS['C11'] = ['dfvc']
 
-PROPERTY_LEVEL = {}
-PROPERTY_EXPLANATION = {}
+PROPERTY_LEVEL = {'C07': 'other'}
+PROPERTY_EXPLANATION = {'C07': 'Kani/CBMC harnesses complete over values x widths x bit offsets x buffer contents for every carrier type; buffer length symbolic up to the window listed in bounded_stand_ins (bounded in that one dimension).'}
